@@ -32,6 +32,7 @@ import serial2coq  # noqa: E402
 import utils2coq  # noqa: E402
 import spectrum2coq  # noqa: E402
 import norms2coq  # noqa: E402
+import expm2coq  # noqa: E402
 
 # one entry per translated source file: translator module, source, committed generated file, equivalence proofs
 TIES = {
@@ -46,6 +47,7 @@ TIES = {
     'marginals': dict(mod=marginals2coq, src='distributions.py', gen='MarginalsGen', equiv='GenMarginalsEquiv'),
     'statespace': dict(mod=statespace2coq, src='state_space.py', gen='StateSpaceGen', equiv='GenStateSpaceEquiv'),
     'coalescent': dict(mod=coalescent2coq, src='distributions.py', gen='CoalescentGen', equiv='GenCoalescentEquiv'),
+    'expm': dict(mod=expm2coq, src='expm.py', gen='ExpmGen', equiv='GenExpmEquiv'),
     'norms': dict(mod=norms2coq, src='norms.py', gen='NormsGen', equiv='GenNormsEquiv'),
     'spectrum': dict(mod=spectrum2coq, src='spectrum.py', gen='SpectrumGen', equiv='GenSpectrumEquiv'),
     'utils': dict(mod=utils2coq, src='utils.py', gen='UtilsGen', equiv='GenUtilsEquiv'),
